@@ -19,7 +19,7 @@ import emit  # noqa: E402
 V3 = ["vx", "vy", "vz"]
 A3 = ["ax", "ay", "az"]
 W3 = ["wx", "wy", "wz"]
-B3 = ["bx", "by", "bz"]
+B3 = ["ex", "ey", "ez"]   # ("by" is a Coq keyword)
 
 
 def _arr(tr, names, shape):
